@@ -25,6 +25,7 @@ INF == MaxT + 1000
 (*  sleep a | tosleep a b (timeout(a, sleep(b))) | tonever a | torecv a b(ch)*)
 (*  select a b (biased) | reset a b | polldrop a | ivlnew a(period) m(mode) *)
 (*  twin a (two sleeps for the same deadline polled once, first dropped)    *)
+(*  ivlnew a(period) b(start offset) | ivlreset                             *)
 (*  tick | send a(ch) | recv a(ch) | sendself a(delay): a message to the    *)
 (*  module that its handler forwards into channel 0 | restart a(delay)      *)
 (*  panic: the task panics; tokio confines the panic to the task (C13): it *)
@@ -90,8 +91,11 @@ RunStep ==
             /\ Block(t, "timer", now + s.b, INF) /\ UNCHANGED <<ivl, q, amb, pendSelf, shut>>
        [] s.k = "polldrop" ->
             /\ Complete(t, "ok") /\ UNCHANGED <<ivl, q, amb, pendSelf, shut>>
-       [] s.k = "ivlnew" ->
-            /\ ivl' = [ivl EXCEPT ![t] = [dl |-> now, per |-> s.a, mode |-> s.m]]
+       [] s.k = "ivlnew" ->      \* interval(period) (b = 0) resp. interval_at(now + b, period): the first tick is due at the start
+            /\ ivl' = [ivl EXCEPT ![t] = [dl |-> now + s.b, per |-> s.a, mode |-> s.m]]
+            /\ Complete(t, "ok") /\ UNCHANGED <<q, amb, pendSelf, shut>>
+       [] s.k = "ivlreset" ->    \* Interval::reset: the next tick completes one period after now, whatever was missed
+            /\ ivl' = [ivl EXCEPT ![t].dl = now + ivl[t].per]
             /\ Complete(t, "ok") /\ UNCHANGED <<q, amb, pendSelf, shut>>
        [] s.k = "tick" ->
             /\ IF ivl[t].dl <= now
